@@ -158,6 +158,15 @@ def run_shard(shard: dict) -> Res:
         elif i % 4 == 0:
             p = directed(rng)
             res.see("directed_families", p["family"])
+        elif i % 11 == 5:
+            # labels under nesting, shadowing and named-scope export: the scope families of C08 that must assemble
+            from vf.checks.c08 import directed as scoped
+
+            p = scoped(rng)
+            while p.get("expect_reject"):
+                p = scoped(rng)
+            p["family"] = "scoped:" + p["family"].split(":")[1]
+            res.see("directed_families", p["family"])
         else:
             g = Gen(rng, weights=WEIGHTS, size=(20, 80), rom=rng.choice(["low", "low", "high", "map"]), reuse=0.15)
             p = g.program()
